@@ -49,7 +49,8 @@ func (o *noArgFunctionOperator) Explain() (me string, next []model.VectorOperato
 }
 
 func (o *noArgFunctionOperator) Series(ctx context.Context) ([]labels.Labels, error) {
-	return []labels.Labels{}, nil
+	// A single series without labels, as for number literals: sample IDs index this list.
+	return []labels.Labels{nil}, nil
 }
 
 func (o *noArgFunctionOperator) GetPool() *model.VectorPool {
@@ -67,8 +68,8 @@ func (o *noArgFunctionOperator) Next(ctx context.Context) ([]model.StepVector, e
 			StepTime: o.currentStep,
 		})
 		sv.T = o.currentStep
-		sv.Samples = []float64{result.V}
-		sv.SampleIDs = []uint64{}
+		sv.Samples = append(sv.Samples, result.V)
+		sv.SampleIDs = append(sv.SampleIDs, 0)
 
 		ret = append(ret, sv)
 		o.currentStep += o.step
